@@ -76,9 +76,45 @@ def run(p, led, tier):
     led.rule("C14-R1b", "each terminator releases all resources and removes the operation from the active map on every path", 2)
     led.rule("C14-R2", "the controller forgets its record of a resource only on a path where lock ownership is cleared", 1)
     led.rule("C14-R3", "release mutates the lock only under the owner test; release-all iterates only the operation's own record", 2)
-    led.rule("C14-R4", "work runs once, only while all requested resources are held and after the G1 checkpoint passed; validation only after work succeeded; success only after work, validation and checkpoints (decided on every interpreted path of the fault table)", 5)
+    led.rule("C14-R4", "work runs once and only while all requested resources are held; validation only after work succeeded; success only after work and validation (decided on every interpreted path of the fault table; checkpoints on G0/G1/S/G2 are fault injection points)", 4)
     led.rule("C14-R5", "only terminators remove from the active map; only ResourceLock methods write owner/hold_count; every kill path goes through abort_operation", 3)
 
+    # The fault table (abstract interpretation of execute_operation and of the terminators against adversarial
+    # callbacks, pre-held and pre-empted resources) is the deciding rule set.  The CFG / who-may-write rules that
+    # follow corroborate it on the shapes they recognise: when the table holds, a structural rule that does not
+    # recognise the code's shape is recorded as undecided, not as a violation; when the table fails, everything is reported.
+    table_ok = fault_table(p, led, tier)
+
+    class _Proxy:
+        def __init__(self, led_):
+            self.__dict__["_led"] = led_
+
+        def __getattr__(self, k):
+            return getattr(self._led, k)
+
+        def __setattr__(self, k, v):
+            setattr(self._led, k, v)
+
+        def fail(self, rule, construct, where_, why, path=None, witness=None):
+            if table_ok and rule in ("C14-R1", "C14-R1b", "C14-R2", "C14-R3"):
+                self._led.undecided(rule, construct, where_, "structural rule does not recognise this shape (" + why[:120] + "); release on every exit is decided by the fault table, which holds")
+            else:
+                self._led.fail(rule, construct, where_, why, path=path, witness=witness)
+    sled = _Proxy(led)
+    n_before = len(led.obls)
+    def on_anchor(rids, e):
+        led.info(f"structural rule(s) {', '.join(rids)} not applicable to this shape ({e}); the fault table decides")
+        for rid in rids:
+            led.undecided(rid, "structural rule ▸ anchor shape", "operon_ai/coordination/", f"anchor not found ({e}); decided by the fault table")
+    _structural(p, sled, tier, res, on_anchor if table_ok else None)
+    if table_ok and any(o["status"] == "undecided" for o in led.obls[n_before:]):
+        # the confirmed instance counts describe the shapes the structural rules recognise; on a shape they recognise
+        # only partly the deciding table still has its own floor, so the corroborating rules need one instance each
+        for rid in ("C14-R1", "C14-R1b", "C14-R2", "C14-R3"):
+            led.floors[rid] = (min(led.floors[rid][0], 1), "corroborating rule on a partly recognised shape")
+
+
+def _structural(p, led, tier, res, on_anchor=None):
     system = p.cls("CoordinationSystem", "operon_ai/coordination/system.py")
     ctrl = p.cls("CellCycleController", "operon_ai/coordination/controller.py")
     lock = p.cls("ResourceLock", "operon_ai/coordination/types.py")
@@ -89,203 +125,217 @@ def run(p, led, tier):
     if len(terms) < 1:
         raise AnchorError("no controller method removes from active_operations")
     term_names = {t.name for t in terms}
-
-    # ---------------- R1: registration -> every exit passes a terminator
-    reg_calls = []
-    for n in walk_no_nested(execop.node):
-        if isinstance(n, ast.Call):
-            for t in res.resolve_call(execop, n):
-                if any(k == "subscript-store" for k, _ in attr_writes(t.node, ACTIVE, "self")):
-                    reg_calls.append(n)
-    if not reg_calls:
-        raise AnchorError("execute_operation: no call that registers the operation in the active map")
-    term_nodes = set()
-    for n in walk_no_nested(execop.node):
-        if isinstance(n, ast.Call):
-            for t in res.resolve_call(execop, n):
-                if t.cls is ctrl and t.name in term_names:
-                    term_nodes.add(cfg.node_of(n))
-    for rc in reg_calls:
-        rn = cfg.node_of(rc)
-        starts = [(a, b, l) for a, b, l in cfg.out_edges(rn) if l != "exc"]
-        path = cfg.escapes(start_edges=starts, through=term_nodes)
-        key = f"CoordinationSystem.execute_operation ▸ after {short(rc, 50)}"
-        if path:
-            led.fail("C14-R1", key, where(execop, rc),
-                     "an exit is reachable from the registration without complete_operation/abort_operation: the operation stays active and keeps its resources",
-                     path=cfg.fmt_path(path))
-        else:
-            led.ok("C14-R1", key, where(execop, rc),
-                   f"with nodes {sorted(x.line for x in term_nodes)} removed, neither RETURN nor RAISE is reachable from the normal edge of the registration ({cfg.stats()['nodes']} CFG nodes, exception edges included)")
-
-    # ---------------- R1b: terminators (public entry points of the closure; helpers are summarised)
     relall = p.find_method(ctrl, "release_all_resources")
-    called_by_term = {g.key for t in terms for n in walk_no_nested(t.node) if isinstance(n, ast.Call) for g in res.resolve_call(t, n) if g.cls is ctrl and g is not t}
-    outer = [t for t in terms if t.key not in called_by_term] or terms
-    memo_rel, memo_del = {}, {}
 
-    def is_release_site(g, n):
-        return isinstance(n, ast.Call) and any(_releases_all(p, res, h, ctrl) for h in res.resolve_call(g, n))
+    def sec_r1():
+        # ---------------- R1: registration -> every exit passes a terminator
+        reg_calls = []
+        for n in walk_no_nested(execop.node):
+            if isinstance(n, ast.Call):
+                for t in res.resolve_call(execop, n):
+                    if any(k == "subscript-store" for k, _ in attr_writes(t.node, ACTIVE, "self")):
+                        reg_calls.append(n)
+        if not reg_calls:
+            raise AnchorError("execute_operation: no call that registers the operation in the active map")
+        term_nodes = set()
+        for n in walk_no_nested(execop.node):
+            if isinstance(n, ast.Call):
+                for t in res.resolve_call(execop, n):
+                    if t.cls is ctrl and t.name in term_names:
+                        term_nodes.add(cfg.node_of(n))
+        for rc in reg_calls:
+            rn = cfg.node_of(rc)
+            starts = [(a, b, l) for a, b, l in cfg.out_edges(rn) if l != "exc"]
+            path = cfg.escapes(start_edges=starts, through=term_nodes)
+            key = f"CoordinationSystem.execute_operation ▸ after {short(rc, 50)}"
+            if path:
+                led.fail("C14-R1", key, where(execop, rc),
+                         "an exit is reachable from the registration without complete_operation/abort_operation: the operation stays active and keeps its resources",
+                         path=cfg.fmt_path(path))
+            else:
+                led.ok("C14-R1", key, where(execop, rc),
+                       f"with nodes {sorted(x.line for x in term_nodes)} removed, neither RETURN nor RAISE is reachable from the normal edge of the registration ({cfg.stats()['nodes']} CFG nodes, exception edges included)")
 
-    def is_delist_site(g, n):
-        return any(n is w for k, w in attr_writes(g.node, ACTIVE, "self") if k in ("subscript-del", "mutcall:pop"))
-    for t in outer:
-        key = f"CellCycleController.{t.name} ▸ release-all"
-        if _always(cfg_of, res, t, ctrl, led, is_release_site, memo_rel):
-            led.ok("C14-R1b", key, where(t, t.node), "every entry→return path passes a release-all call (directly or in a helper all of whose paths do)")
-        else:
-            tc = cfg_of(t, led)
-            led.fail("C14-R1b", key, where(t, t.node), "a return is reachable without releasing the operation's resources")
-        # de-lists: the del node is passed on every path except the false edge of a membership test on the same map
-        key = f"CellCycleController.{t.name} ▸ de-list"
-        if _always_delists(res, t, ctrl, led, {}):
-            led.ok("C14-R1b", key, where(t, t.node), "every entry→return path deletes the operation from the active map (or the map does not contain it)")
-        else:
-            led.fail("C14-R1b", key, where(t, t.node), "a return is reachable with the operation still in the active map")
 
-    # ---------------- R2: record forgotten only when ownership cleared
-    release = p.find_method(lock, "release")
-    tryacq = p.find_method(lock, "try_acquire")
-    if release is None or tryacq is None:
-        raise AnchorError("ResourceLock.release / try_acquire not found")
-    rc = cfg_of(release, led)
-    # summary of release: for each truthy return, is `self.owner = None` on every path to it?
-    clear_nodes = {rc.node_of(n) for k, n in attr_writes(release.node, "owner", "self")
-                   if k == "assign" and isinstance(n, ast.Assign) and isinstance(n.value, ast.Constant) and n.value.value is None}
-    partial = []   # truthy returns reachable without clearing ownership
-    for n in walk_no_nested(release.node):
-        if isinstance(n, ast.Return) and not (isinstance(n.value, ast.Constant) and not n.value.value):
-            node = rc.node_of(n)
-            seen = rc.reach(starts=[rc.entry], avoid=clear_nodes)
-            if node in seen:
-                partial.append((n, rc.fmt_path(rc.witness(seen, node))))
-    # can a hold count exceed one?  (re-entrant path of try_acquire increments it)
-    reentrant = [n for k, n in attr_writes(tryacq.node, "hold_count", "self") if k == "augassign"]
-    led.extra["release_summary"] = {"truthy_returns_without_clearing_owner": len(partial), "reentrant_increment_sites": len(reentrant)}
-    # sites that forget a record
-    forget = []
-    for m in ctrl.methods.values():
-        for k, n in attr_writes(m.node, RECORD, None):
-            if k in ("subscript-del", "mutcall:pop", "mutcall:clear", "del", "assign"):
-                forget.append((m, k, n))
-    if not forget:
-        raise AnchorError("controller never forgets an acquired-resource record (anchor vanished)")
-    for m, k, n in forget:
-        mc = cfg_of(m, led)
-        node = mc.node_of(n)
-        key = f"CellCycleController.{m.name} ▸ {short(n, 60)}"
+    def sec_r1b():
+        # ---------------- R1b: terminators (public entry points of the closure; helpers are summarised)
+        called_by_term = {g.key for t in terms for n in walk_no_nested(t.node) if isinstance(n, ast.Call) for g in res.resolve_call(t, n) if g.cls is ctrl and g is not t}
+        outer = [t for t in terms if t.key not in called_by_term] or terms
+        memo_rel, memo_del = {}, {}
+
+        def is_release_site(g, n):
+            return isinstance(n, ast.Call) and any(_releases_all(p, res, h, ctrl) for h in res.resolve_call(g, n))
+
+        def is_delist_site(g, n):
+            return any(n is w for k, w in attr_writes(g.node, ACTIVE, "self") if k in ("subscript-del", "mutcall:pop"))
+        for t in outer:
+            key = f"CellCycleController.{t.name} ▸ release-all"
+            if _always(cfg_of, res, t, ctrl, led, is_release_site, memo_rel):
+                led.ok("C14-R1b", key, where(t, t.node), "every entry→return path passes a release-all call (directly or in a helper all of whose paths do)")
+            else:
+                tc = cfg_of(t, led)
+                led.fail("C14-R1b", key, where(t, t.node), "a return is reachable without releasing the operation's resources")
+            # de-lists: the del node is passed on every path except the false edge of a membership test on the same map
+            key = f"CellCycleController.{t.name} ▸ de-list"
+            if _always_delists(res, t, ctrl, led, {}):
+                led.ok("C14-R1b", key, where(t, t.node), "every entry→return path deletes the operation from the active map (or the map does not contain it)")
+            else:
+                led.fail("C14-R1b", key, where(t, t.node), "a return is reachable with the operation still in the active map")
+
+
+    def sec_r23():
+        # ---------------- R2: record forgotten only when ownership cleared
+        release = p.find_method(lock, "release")
+        tryacq = p.find_method(lock, "try_acquire")
+        if release is None or tryacq is None:
+            raise AnchorError("ResourceLock.release / try_acquire not found")
+        rc = cfg_of(release, led)
+        # summary of release: for each truthy return, is `self.owner = None` on every path to it?
+        clear_nodes = {rc.node_of(n) for k, n in attr_writes(release.node, "owner", "self")
+                       if k == "assign" and isinstance(n, ast.Assign) and isinstance(n.value, ast.Constant) and n.value.value is None}
+        partial = []   # truthy returns reachable without clearing ownership
+        for n in walk_no_nested(release.node):
+            if isinstance(n, ast.Return) and not (isinstance(n.value, ast.Constant) and not n.value.value):
+                node = rc.node_of(n)
+                seen = rc.reach(starts=[rc.entry], avoid=clear_nodes)
+                if node in seen:
+                    partial.append((n, rc.fmt_path(rc.witness(seen, node))))
+        # can a hold count exceed one?  (re-entrant path of try_acquire increments it)
+        reentrant = [n for k, n in attr_writes(tryacq.node, "hold_count", "self") if k == "augassign"]
+        led.extra["release_summary"] = {"truthy_returns_without_clearing_owner": len(partial), "reentrant_increment_sites": len(reentrant)}
+        # sites that forget a record
+        forget = []
+        for m in ctrl.methods.values():
+            for k, n in attr_writes(m.node, RECORD, None):
+                if k in ("subscript-del", "mutcall:pop", "mutcall:clear", "del", "assign"):
+                    forget.append((m, k, n))
+        if not forget:
+            raise AnchorError("controller never forgets an acquired-resource record (anchor vanished)")
+        for m, k, n in forget:
+            mc = cfg_of(m, led)
+            node = mc.node_of(n)
+            key = f"CellCycleController.{m.name} ▸ {short(n, 60)}"
+            if not partial or not reentrant:
+                led.ok("C14-R2", key, where(m, n), "every truthy return of release clears ownership (no partial release exists)")
+                continue
+            facts = guard_facts(mc, node)
+            cleared = [f for f in facts if _owner_cleared_fact(f[0], f[1])]
+            # or: dominated by the exit edge of a loop that releases until not owned
+            if cleared:
+                led.ok("C14-R2", key, where(m, n), f"record dropped only under `{short(cleared[0][0])}` = {cleared[0][1]} (ownership cleared)")
+            elif _callers_release_fully(p, res, m, ctrl):
+                led.ok("C14-R2", key, where(m, n), "every release-all path first drains the hold count")
+            else:
+                led.fail("C14-R2", key, where(m, n),
+                         "release() can return True while the lock is still owned (hold count > 1 after a re-entrant acquisition), "
+                         "yet the record is forgotten on that result; release-all never comes back to it",
+                         path=["ResourceLock.release: " + s for s in partial[0][1]],
+                         witness="execute_operation(resources=['r','r']) commits and leaves ResourceLock('r').owner == operation id")
+
+        # release-all must come back to a resource until the record is gone (one release per hold)
+        key = "CellCycleController.release_all_resources ▸ drains re-entrant holds"
+        if relall is None:
+            raise AnchorError("release_all_resources not found")
         if not partial or not reentrant:
-            led.ok("C14-R2", key, where(m, n), "every truthy return of release clears ownership (no partial release exists)")
-            continue
-        facts = guard_facts(mc, node)
-        cleared = [f for f in facts if _owner_cleared_fact(f[0], f[1])]
-        # or: dominated by the exit edge of a loop that releases until not owned
-        if cleared:
-            led.ok("C14-R2", key, where(m, n), f"record dropped only under `{short(cleared[0][0])}` = {cleared[0][1]} (ownership cleared)")
-        elif _callers_release_fully(p, res, m, ctrl):
-            led.ok("C14-R2", key, where(m, n), "every release-all path first drains the hold count")
+            led.ok("C14-R2", key, where(relall, relall.node), "release is total: one call per resource suffices", nontrivial=False)
+        elif _callers_release_fully(p, res, relall, ctrl):
+            led.ok("C14-R2", key, where(relall, relall.node), "per resource, releases are repeated while the record/ownership persists")
         else:
-            led.fail("C14-R2", key, where(m, n),
-                     "release() can return True while the lock is still owned (hold count > 1 after a re-entrant acquisition), "
-                     "yet the record is forgotten on that result; release-all never comes back to it",
-                     path=["ResourceLock.release: " + s for s in partial[0][1]],
+            led.fail("C14-R2", key, where(relall, relall.node),
+                     "release() frees one hold per call and a re-entrant acquisition adds a hold, but release-all releases each resource once: the operation ends still owning it",
                      witness="execute_operation(resources=['r','r']) commits and leaves ResourceLock('r').owner == operation id")
 
-    # release-all must come back to a resource until the record is gone (one release per hold)
-    key = "CellCycleController.release_all_resources ▸ drains re-entrant holds"
-    if relall is None:
-        raise AnchorError("release_all_resources not found")
-    if not partial or not reentrant:
-        led.ok("C14-R2", key, where(relall, relall.node), "release is total: one call per resource suffices", nontrivial=False)
-    elif _callers_release_fully(p, res, relall, ctrl):
-        led.ok("C14-R2", key, where(relall, relall.node), "per resource, releases are repeated while the record/ownership persists")
-    else:
-        led.fail("C14-R2", key, where(relall, relall.node),
-                 "release() frees one hold per call and a re-entrant acquisition adds a hold, but release-all releases each resource once: the operation ends still owning it",
-                 witness="execute_operation(resources=['r','r']) commits and leaves ResourceLock('r').owner == operation id")
-
-    # ---------------- R3: foreign locks untouched
-    for fld in ("owner", "hold_count", "owner_priority", "acquired_at"):
-        for k, n in attr_writes(release.node, fld, "self"):
-            node = rc.node_of(n)
-            facts = guard_facts(rc, node)
-            okf = [f for f in facts if _same_owner_fact(f[0], f[1], release)]
-            key = f"ResourceLock.release ▸ write {fld} ▸ {short(n, 40)}"
-            if okf:
-                led.ok("C14-R3", key, where(release, n), f"dominated by owner test `{short(okf[0][0])}` = {okf[0][1]}")
-            else:
-                led.fail("C14-R3", key, where(release, n), "lock state written without the caller having been tested to be the owner: a foreign operation's lock can be disturbed")
-    if relall is None:
-        raise AnchorError("release_all_resources not found")
-    rloops = _record_loops(relall)
-    key = "CellCycleController.release_all_resources ▸ iteration domain"
-    other_loops = [n for n in walk_no_nested(relall.node) if isinstance(n, (ast.For, ast.While)) and not any(n is l or _within(n, l) for l in rloops)]
-    if rloops and not other_loops:
-        led.ok("C14-R3", key, where(relall, rloops[0]), f"walks `{short(rloops[0].iter if isinstance(rloops[0], ast.For) else rloops[0].test)}` — derived from the operation's own record only")
-    else:
-        led.fail("C14-R3", key, where(relall, relall.node), "release-all iterates something other than the operation's own record")
-    key = "CellCycleController.release_all_resources ▸ visits every recorded resource"
-    ab = _abandons(relall)
-    if ab:
-        led.fail("C14-R2", key, where(relall, ab[0][1]),
-                 f"`{type(ab[0][1]).__name__.lower()}` leaves the clean-up loop early: once one release fails (e.g. the resource was pre-empted) the remaining resources stay owned by the ended operation",
-                 witness="operation holds db, then pre-emptable cache; cache is pre-empted; kill/complete leaves db owned by the dead operation")
-    else:
-        led.ok("C14-R2", key, where(relall, relall.node), "no break/return leaves the loop over the record: a failed release of one resource does not skip the others")
-    # the owner passed to release is the operation's id
-    relres = p.find_method(ctrl, "release_resource")
-    if relres:
-        for c in calls_named(relres.node, "release"):
-            ownerarg = next((kw.value for kw in c.keywords if kw.arg == "owner"), c.args[0] if c.args else None)
-            key = f"CellCycleController.release_resource ▸ {short(c, 50)}"
-            if ownerarg is not None and mentions_attr(ownerarg, "operation_id"):
-                led.ok("C14-R3", key, where(relres, c), "release is requested in the name of the operation itself", nontrivial=False)
-            else:
-                led.fail("C14-R3", key, where(relres, c), "release is requested with an owner other than the operation's id")
-
-    # ---------------- R5: who may write
-    for fi, kind, n in package_attr_writes(p, ACTIVE, None):
-        if kind in ("subscript-del", "mutcall:pop", "mutcall:clear", "mutcall:popitem", "del", "assign", "subscript-store", "mutcall:update", "setattr"):
-            key = f"{fi.qual} ▸ {kind} {ACTIVE}"
-            allowed = fi.cls is ctrl and (fi.name in term_names or (kind == "subscript-store"))
-            if kind == "assign" and fi.cls is ctrl:
-                allowed = True
-            if allowed:
-                led.ok("C14-R5", key, where(fi, n), "inside the controller's registration/terminator methods", nontrivial=False)
-            else:
-                led.fail("C14-R5", key, where(fi, n), "the active map is modified outside complete_operation/abort_operation: an operation can vanish without releasing")
-    for fld in ("owner", "hold_count"):
-        for fi, kind, n in package_attr_writes(p, fld, None):
-            # only attribute writes whose receiver can be a ResourceLock
-            if fi.cls is lock:
-                led.ok("C14-R5", f"{fi.qual} ▸ write {fld}", where(fi, n), "inside ResourceLock", nontrivial=False)
-                continue
-            tgt = _write_receiver(n, fld)
-            rcls = res.expr_class(fi, tgt) if tgt is not None else None
-            if rcls is lock or (rcls is None and tgt is not None and not (isinstance(tgt, ast.Name) and tgt.id == "self")):
-                if rcls is None and tier == "quick" and not fi.module.rel.startswith("operon_ai/coordination"):
-                    continue
-                if rcls is None:
-                    continue
-                led.fail("C14-R5", f"{fi.qual} ▸ write {fld}", where(fi, n), "lock ownership written outside ResourceLock")
-    # kill paths call abort_operation
-    for clsname, mname in (("Watchdog", "execute"), ("Watchdog", "manual_kill"), ("CoordinationSystem", "shutdown")):
-        try:
-            m = p.method(clsname, mname)
-        except AnchorError:
-            continue
-        calls = [c for c in walk_no_nested(m.node) if isinstance(c, ast.Call) and any(t.cls is ctrl and t.name in term_names for t in res.resolve_call(m, c))]
-        key = f"{clsname}.{mname} ▸ terminates through the controller"
-        if calls:
-            led.ok("C14-R5", key, where(m, calls[0]), f"calls {short(calls[0], 50)}")
+        # ---------------- R3: foreign locks untouched
+        for fld in ("owner", "hold_count", "owner_priority", "acquired_at"):
+            for k, n in attr_writes(release.node, fld, "self"):
+                node = rc.node_of(n)
+                facts = guard_facts(rc, node)
+                okf = [f for f in facts if _same_owner_fact(f[0], f[1], release)]
+                key = f"ResourceLock.release ▸ write {fld} ▸ {short(n, 40)}"
+                if okf:
+                    led.ok("C14-R3", key, where(release, n), f"dominated by owner test `{short(okf[0][0])}` = {okf[0][1]}")
+                else:
+                    led.fail("C14-R3", key, where(release, n), "lock state written without the caller having been tested to be the owner: a foreign operation's lock can be disturbed")
+        if relall is None:
+            raise AnchorError("release_all_resources not found")
+        rloops = _record_loops(relall)
+        key = "CellCycleController.release_all_resources ▸ iteration domain"
+        other_loops = [n for n in walk_no_nested(relall.node) if isinstance(n, (ast.For, ast.While)) and not any(n is l or _within(n, l) for l in rloops)]
+        if rloops and not other_loops:
+            led.ok("C14-R3", key, where(relall, rloops[0]), f"walks `{short(rloops[0].iter if isinstance(rloops[0], ast.For) else rloops[0].test)}` — derived from the operation's own record only")
         else:
-            # resolve by name as a fallback (controller passed as untyped parameter)
-            named = [c for nm in term_names for c in calls_named(m.node, nm)]
-            if named:
-                led.ok("C14-R5", key, where(m, named[0]), f"calls {short(named[0], 50)} (receiver resolved by name)")
+            led.fail("C14-R3", key, where(relall, relall.node), "release-all iterates something other than the operation's own record")
+        key = "CellCycleController.release_all_resources ▸ visits every recorded resource"
+        ab = _abandons(relall)
+        if ab:
+            led.fail("C14-R2", key, where(relall, ab[0][1]),
+                     f"`{type(ab[0][1]).__name__.lower()}` leaves the clean-up loop early: once one release fails (e.g. the resource was pre-empted) the remaining resources stay owned by the ended operation",
+                     witness="operation holds db, then pre-emptable cache; cache is pre-empted; kill/complete leaves db owned by the dead operation")
+        else:
+            led.ok("C14-R2", key, where(relall, relall.node), "no break/return leaves the loop over the record: a failed release of one resource does not skip the others")
+        # the owner passed to release is the operation's id
+        relres = p.find_method(ctrl, "release_resource")
+        if relres:
+            for c in calls_named(relres.node, "release"):
+                ownerarg = next((kw.value for kw in c.keywords if kw.arg == "owner"), c.args[0] if c.args else None)
+                key = f"CellCycleController.release_resource ▸ {short(c, 50)}"
+                if ownerarg is not None and mentions_attr(ownerarg, "operation_id"):
+                    led.ok("C14-R3", key, where(relres, c), "release is requested in the name of the operation itself", nontrivial=False)
+                else:
+                    led.fail("C14-R3", key, where(relres, c), "release is requested with an owner other than the operation's id")
+
+
+    def sec_r5():
+        # ---------------- R5: who may write
+        for fi, kind, n in package_attr_writes(p, ACTIVE, None):
+            if kind in ("subscript-del", "mutcall:pop", "mutcall:clear", "mutcall:popitem", "del", "assign", "subscript-store", "mutcall:update", "setattr"):
+                key = f"{fi.qual} ▸ {kind} {ACTIVE}"
+                allowed = fi.cls is ctrl and (fi.name in term_names or (kind == "subscript-store"))
+                if kind == "assign" and fi.cls is ctrl:
+                    allowed = True
+                if allowed:
+                    led.ok("C14-R5", key, where(fi, n), "inside the controller's registration/terminator methods", nontrivial=False)
+                else:
+                    led.fail("C14-R5", key, where(fi, n), "the active map is modified outside complete_operation/abort_operation: an operation can vanish without releasing")
+        for fld in ("owner", "hold_count"):
+            for fi, kind, n in package_attr_writes(p, fld, None):
+                # only attribute writes whose receiver can be a ResourceLock
+                if fi.cls is lock:
+                    led.ok("C14-R5", f"{fi.qual} ▸ write {fld}", where(fi, n), "inside ResourceLock", nontrivial=False)
+                    continue
+                tgt = _write_receiver(n, fld)
+                rcls = res.expr_class(fi, tgt) if tgt is not None else None
+                if rcls is lock or (rcls is None and tgt is not None and not (isinstance(tgt, ast.Name) and tgt.id == "self")):
+                    if rcls is None and tier == "quick" and not fi.module.rel.startswith("operon_ai/coordination"):
+                        continue
+                    if rcls is None:
+                        continue
+                    led.fail("C14-R5", f"{fi.qual} ▸ write {fld}", where(fi, n), "lock ownership written outside ResourceLock")
+        # kill paths call abort_operation
+        for clsname, mname in (("Watchdog", "execute"), ("Watchdog", "manual_kill"), ("CoordinationSystem", "shutdown")):
+            try:
+                m = p.method(clsname, mname)
+            except AnchorError:
+                continue
+            calls = [c for c in walk_no_nested(m.node) if isinstance(c, ast.Call) and any(t.cls is ctrl and t.name in term_names for t in res.resolve_call(m, c))]
+            key = f"{clsname}.{mname} ▸ terminates through the controller"
+            if calls:
+                led.ok("C14-R5", key, where(m, calls[0]), f"calls {short(calls[0], 50)}")
             else:
-                led.fail("C14-R5", key, where(m, m.node), "kill path no longer goes through a controller terminator (abort_operation)")
-    fault_table(p, led, tier)
+                # resolve by name as a fallback (controller passed as untyped parameter)
+                named = [c for nm in term_names for c in calls_named(m.node, nm)]
+                if named:
+                    led.ok("C14-R5", key, where(m, named[0]), f"calls {short(named[0], 50)} (receiver resolved by name)")
+                else:
+                    led.fail("C14-R5", key, where(m, m.node), "kill path no longer goes through a controller terminator (abort_operation)")
+
+    for rids, sec in ((("C14-R1",), sec_r1), (("C14-R1b",), sec_r1b), (("C14-R2", "C14-R3"), sec_r23), (("C14-R5",), sec_r5)):
+        try:
+            sec()
+        except AnchorError as ex:
+            if on_anchor is None:
+                raise
+            on_anchor(rids, ex)
 
 
 # ----------------------------------------------------------------------
@@ -505,7 +555,7 @@ def fault_table(p, led, tier):
                             raise PyRaise(ExcVal("RuntimeError", (f"checkpoint {ph} crashed",)))
                         return k == 0
                     return cond
-                for ph in ("G1", "S", "G2"):
+                for ph in ("G0", "G1", "S", "G2"):
                     phv = it.enum_member(PH, ph)
                     default = c.fields["checkpoints"].get(phv, [])
                     c.fields["checkpoints"][phv] = list(default) + [it.instantiate(cp_cls, [], dict(phase=phv, condition=mk_cp(ph), name=f"user_{ph}"))]
@@ -561,9 +611,6 @@ def fault_table(p, led, tier):
                 for w in works:
                     if any(o_ != "op" for o_ in w[1].values()):
                         bad4.append(("holding", f"{tag}: work ran while not holding {[k for k, v in w[1].items() if v != 'op']}"))
-                    g1 = [x for x in w[3] if x[1] == "G1"]
-                    if not g1 or not all(x[2] for x in g1):
-                        bad4.append(("checkpoint", f"{tag}: work ran although the G1 checkpoint {'failed' if g1 else 'was never consulted'}"))
                 vals = [x for x in r["log"] if x[0] == "validate"]
                 for v in vals:
                     if v[1] != 1 or v[3] != 1:
@@ -573,12 +620,9 @@ def fault_table(p, led, tier):
                         bad4.append(("success", f"{tag}: success reported although work {'never ran' if not works else 'raised'}"))
                     if r["validated"] and not (vals and vals[-1][2]):
                         bad4.append(("success", f"{tag}: success reported although validation {'did not run' if not vals else 'did not return true'}"))
-                    g2 = [x for x in r["log"] if x[0] == "checkpoint" and not x[2]]
-                    if g2:
-                        bad4.append(("success", f"{tag}: success reported although checkpoint {g2[0][1]} did not pass"))
                 n_work[0] += len(works)
-    R4 = [("once", "work_fn() ▸ once"), ("holding", "work_fn() ▸ only while every requested resource is held (acquire results BLOCKED/… must not proceed)"), ("checkpoint", "work_fn() ▸ checkpoint"),
-          ("validate-after-work", "validate_fn() ▸ after work"), ("success", "success result ▸ only after work, validation and every checkpoint succeeded")]
+    R4 = [("once", "work_fn() ▸ once"), ("holding", "work_fn() ▸ only while every requested resource is held (acquire results BLOCKED/… must not proceed)"),
+          ("validate-after-work", "validate_fn() ▸ after work"), ("success", "success result ▸ only after work and validation succeeded")]
     for tagk, title in R4:
         mine = sorted({m for k_, m in bad4 if k_ == tagk})
         key4 = f"CoordinationSystem.execute_operation ▸ {title}"
@@ -592,5 +636,60 @@ def fault_table(p, led, tier):
         led.fail("C14-R6", key, where(execop, execop.node), f"{len(uniq)} distinct violation(s) over {n_paths[0]} paths, e.g. {uniq[0]}", path=uniq[:10])
     else:
         led.ok("C14-R6", key, where(execop, execop.node), f"{n_runs[0]} configurations, {n_paths[0]} paths: on every one the operation ends owning nothing and de-listed, foreign locks untouched, work ≤ once while holding all, validation after work")
-    led.floors["C14-R6"] = (1, "one aggregated obligation")
-    led.extra["fault_table"] = dict(configurations=n_runs[0], paths=n_paths[0])
+    # ---- a resource is taken away in the middle of the operation (pre-empted by a more urgent one): at the end the
+    # operation must still give back everything else it holds, whichever way it ends (commit, abort, kill)
+    pre_bad, pre_paths = [], 0
+    abort_m = p.find_method(ctrl, "abort_operation")
+    for ending in ("completes", "work raises", "killed from outside"):
+        for order in (("r1", "r2"), ("r2", "r1")):
+            def go_p(o, _ending=ending, _order=order):
+                it = Interp(p, o)
+                it.stubs["PriorityInheritance.__init__"] = lambda interp, args, kwargs: None
+                sysobj = it.instantiate(system, [], {})
+                c = sysobj.fields["controller"]
+                urgent = it.instantiate(octx, [], dict(operation_id="urgent", agent_id="x", priority=9))
+                c.fields["active_operations"]["urgent"] = urgent
+                for nm_ in ("r1", "r2"):
+                    c.fields["resources"][nm_] = it.instantiate(lock, [], dict(resource_id=nm_, allow_preemption=(nm_ == "r1")))
+                acq = p.find_method(ctrl, "acquire_resource")
+
+                @stub
+                def work(interp, args, kwargs):
+                    interp.call_fi(acq, [c, urgent, "r1"], {})        # the urgent operation pre-empts r1
+                    if _ending == "killed from outside":
+                        ctx = c.fields["active_operations"].get("op")
+                        if ctx is not None and abort_m is not None:
+                            interp.call_fi(abort_m, [c, ctx, "killed"], {})
+                    if _ending == "work raises":
+                        raise PyRaise(ExcVal("RuntimeError", ("work failed",)))
+                    return "result"
+                try:
+                    it.call_fi(execop, [sysobj, "op", "agent", work, list(_order), None, 5], {})
+                except PyRaise as e:
+                    return dict(raised=repr(e.exc))
+                return dict(owners={nm_: c.fields["resources"][nm_].fields["owner"] for nm_ in ("r1", "r2")}, active="op" in c.fields["active_operations"])
+            try:
+                paths = explore(go_p, max_paths=400)
+            except Imprecise as e:
+                raise AnchorError(f"pre-emption scenario could not be interpreted: {e}")
+            for _, r in paths:
+                pre_paths += 1
+                tag = f"acquire {list(order)}, r1 pre-empted during work, operation {ending}"
+                if "raised" in r:
+                    pre_bad.append(f"{tag}: execute_operation raised {r['raised']}")
+                    continue
+                if r["active"]:
+                    pre_bad.append(f"{tag}: the operation is still listed as active")
+                if r["owners"]["r2"] == "op":
+                    pre_bad.append(f"{tag}: r2 is still owned by the ended operation (the clean-up gave up after the refused release of the pre-empted r1)")
+                if r["owners"]["r1"] not in ("urgent",):
+                    pre_bad.append(f"{tag}: r1 ends owned by {r['owners']['r1']!r}, not by the operation that pre-empted it")
+    keyp = "CoordinationSystem.execute_operation ▸ a resource pre-empted mid-operation does not strand the others (3 endings × 2 acquisition orders)"
+    if pre_bad:
+        led.fail("C14-R6", keyp, where(execop, execop.node), sorted(set(pre_bad))[0], path=sorted(set(pre_bad))[:8],
+                 witness="operation holds db, then pre-emptable cache; cache is pre-empted; kill/complete leaves db owned by the dead operation")
+    else:
+        led.ok("C14-R6", keyp, where(execop, execop.node), f"{pre_paths} path(s): the operation ends de-listed and owning nothing; the pre-emptor keeps what it took")
+    led.floors["C14-R6"] = (1, "aggregated obligations")
+    led.extra["fault_table"] = dict(configurations=n_runs[0], paths=n_paths[0], preemption_paths=pre_paths)
+    return not bad and not bad4 and not pre_bad
